@@ -1016,6 +1016,148 @@ theorem advance_mono {cfg : Cfg} (n : Nat) {st : St} : (advance cfg n st).mono =
   | zero => simp [advance]
   | succ n ih => simp only [advance]; rw [ih, tick_mono]; omega
 
+/-! ### nonces issued by mod_auth_append_nonce() pass mod_auth_digest_validate_nonce() -/
+
+theorem hexVal_hexDigitLC (v : Nat) : hexVal (hexDigitLC (v % 16).toUInt8) = some (v % 16).toUInt8 := by
+  have h : v % 16 < 16 := Nat.mod_lt _ (by decide)
+  generalize v % 16 = w at h
+  have : w = 0 ∨ w = 1 ∨ w = 2 ∨ w = 3 ∨ w = 4 ∨ w = 5 ∨ w = 6 ∨ w = 7 ∨ w = 8 ∨ w = 9 ∨ w = 10 ∨ w = 11
+      ∨ w = 12 ∨ w = 13 ∨ w = 14 ∨ w = 15 := by omega
+  rcases this with h | h | h | h | h | h | h | h | h | h | h | h | h | h | h | h <;> subst h <;> decide
+
+theorem hexPrefix_stop (k : Nat) (rest : Bytes) (acc : Nat) :
+    hexPrefix k (58 :: rest) acc = (acc, 58 :: rest) := by
+  cases k with
+  | zero => rfl
+  | succ k => simp [hexPrefix, hexVal, isDigit]
+
+theorem toUInt8_lt16 (v : Nat) : (v % 16).toUInt8 < 16 := by
+  have h : v % 16 < 16 := Nat.mod_lt _ (by decide)
+  generalize v % 16 = w at h
+  have : w = 0 ∨ w = 1 ∨ w = 2 ∨ w = 3 ∨ w = 4 ∨ w = 5 ∨ w = 6 ∨ w = 7 ∨ w = 8 ∨ w = 9 ∨ w = 10 ∨ w = 11
+      ∨ w = 12 ∨ w = 13 ∨ w = 14 ∨ w = 15 := by omega
+  rcases this with h | h | h | h | h | h | h | h | h | h | h | h | h | h | h | h <;> subst h <;> decide
+
+theorem toUInt8_toNat16 (v : Nat) : ((v % 16).toUInt8).toNat = v % 16 := by
+  have h : v % 16 < 16 := Nat.mod_lt _ (by decide)
+  generalize v % 16 = w at h
+  have : w = 0 ∨ w = 1 ∨ w = 2 ∨ w = 3 ∨ w = 4 ∨ w = 5 ∨ w = 6 ∨ w = 7 ∨ w = 8 ∨ w = 9 ∨ w = 10 ∨ w = 11
+      ∨ w = 12 ∨ w = 13 ∨ w = 14 ∨ w = 15 := by omega
+  rcases this with h | h | h | h | h | h | h | h | h | h | h | h | h | h | h | h <;> subst h <;> decide
+
+theorem hexPrefix_hexFixed (n k : Nat) (v : Nat) (rest : Bytes) (acc : Nat) :
+    hexPrefix (n + k) (hexFixed n v ++ rest) acc = hexPrefix k rest (acc * 16 ^ n + v % 16 ^ n) := by
+  induction n generalizing v k rest acc with
+  | zero => simp [hexFixed, Nat.mod_one]
+  | succ n ih =>
+    simp only [hexFixed, List.append_assoc, List.singleton_append]
+    have := ih (k + 1) (v / 16) (hexDigitLC (v % 16).toUInt8 :: rest) acc
+    rw [show n + 1 + k = n + (k + 1) by omega, this]
+    simp only [hexPrefix, hexVal_hexDigitLC, toUInt8_toNat16]
+    congr 1
+    rw [Nat.pow_succ]
+    have h1 : v % (16 ^ n * 16) = v % 16 + 16 * (v / 16 % 16 ^ n) := by
+      rw [Nat.mul_comm (16 ^ n) 16, Nat.mod_mul]
+    rw [h1, Nat.add_mul, Nat.mul_assoc]
+    omega
+
+theorem byteLen_le (fuel v m : Nat) (hm : 1 ≤ m) (hv : v < 256 ^ m) : byteLen fuel v ≤ m := by
+  induction fuel generalizing v m with
+  | zero => simpa [byteLen] using hm
+  | succ f ih =>
+    unfold byteLen
+    split
+    · exact hm
+    · rename_i h256
+      cases m with
+      | zero => omega
+      | succ m =>
+        cases m with
+        | zero => simp at hv; omega
+        | succ m =>
+          have : v / 256 < 256 ^ (m + 1) := by
+            rw [Nat.div_lt_iff_lt_mul (by decide)]
+            rw [Nat.pow_succ] at hv; exact hv
+          have := ih (v / 256) (m + 1) (by omega) this
+          omega
+
+theorem lt_pow_byteLen (fuel v : Nat) (hv : v < 256 ^ (fuel + 1)) : v < 256 ^ byteLen fuel v := by
+  induction fuel generalizing v with
+  | zero => simpa [byteLen] using hv
+  | succ f ih =>
+    unfold byteLen
+    split
+    · rename_i h; simpa using h
+    · have : v / 256 < 256 ^ (f + 1) := by
+        rw [Nat.div_lt_iff_lt_mul (by decide)]
+        rw [Nat.pow_succ] at hv; exact hv
+      have h2 := ih (v / 256) this
+      rw [Nat.add_comm, Nat.pow_succ]
+      have := (Nat.div_lt_iff_lt_mul (k := 256) (x := v) (y := 256 ^ byteLen f (v / 256)) (by decide)).mp h2
+      exact this
+
+theorem hexPrefix_hexLcEven (maxd m v : Nat) (rest : Bytes) (hm : 1 ≤ m) (hv : v < 256 ^ m) (hmax : 2 * m ≤ maxd)
+    (hm17 : m ≤ 17) :
+    hexPrefix maxd (hexLcEven v ++ 58 :: rest) 0 = (v, 58 :: rest) := by
+  unfold hexLcEven
+  have hle := byteLen_le 16 v m hm hv
+  have hlt : v < 256 ^ byteLen 16 v := lt_pow_byteLen 16 v (Nat.lt_of_lt_of_le hv (Nat.pow_le_pow_right (by decide) hm17))
+  have h16 : v < 16 ^ (2 * byteLen 16 v) := by
+    rw [Nat.pow_mul]; exact hlt
+  obtain ⟨k, hk⟩ : ∃ k, maxd = 2 * byteLen 16 v + k := ⟨maxd - 2 * byteLen 16 v, by omega⟩
+  rw [hk, hexPrefix_hexFixed, hexPrefix_stop, Nat.mod_eq_of_lt h16]
+  simp
+
+theorem tsU_eq (ts : Int) (h0 : 0 ≤ ts) (h1 : ts < 2 ^ 63) : (ts % 2 ^ 64).toNat = ts.toNat := by
+  have e64 : (2 : Int) ^ 64 = 18446744073709551616 := by decide
+  have e63 : (2 : Int) ^ 63 = 9223372036854775808 := by decide
+  rw [e64]; rw [e63] at h1
+  congr 1
+  omega
+
+theorem toInt64_of_nonneg (ts : Int) (h0 : 0 ≤ ts) (h1 : ts < 2 ^ 63) :
+    toInt64 (ts % 2 ^ 64).toNat = ts := by
+  rw [tsU_eq ts h0 h1]
+  have e63 : (2 : Int) ^ 63 = 9223372036854775808 := by decide
+  have n64 : (2 : Nat) ^ 64 = 18446744073709551616 := by decide
+  have n63 : (2 : Nat) ^ 63 = 9223372036854775808 := by decide
+  rw [e63] at h1
+  have hlt : ts.toNat < 9223372036854775808 := by omega
+  have hmod : ts.toNat % 18446744073709551616 = ts.toNat := Nat.mod_eq_of_lt (by omega)
+  simp only [toInt64, n64, n63, hmod, hlt, ↓reduceIte]
+  exact Int.toNat_of_nonneg h0
+
+/-- a nonce built by mod_auth_append_nonce() at time `ts` is accepted by
+    mod_auth_digest_validate_nonce() for the next 600 seconds -/
+theorem validateNonce_appendNonce (P : Prims) (rule : Rule) (epoch ts : Int) (rnd dalgo : Nat)
+    (h0 : 0 ≤ ts) (h63 : ts < 2 ^ 63) (hle : ts ≤ epoch) (hage : epoch - ts ≤ 600) (hrnd : rnd < 2 ^ 32) :
+    validateNonce P rule epoch (appendNonce P ts rule.secret rnd) dalgo = .ok (decide (epoch - ts > 540)) := by
+  have hts := toInt64_of_nonneg ts h0 h63
+  have htsU : (ts % 2 ^ 64).toNat < 256 ^ 8 := by
+    rw [tsU_eq ts h0 h63]
+    have e63 : (2 : Int) ^ 63 = 9223372036854775808 := by decide
+    have : (256 : Nat) ^ 8 = 18446744073709551616 := by decide
+    rw [this]; rw [e63] at h63; omega
+  have hr256 : rnd < 256 ^ 4 := by
+    have : (256 : Nat) ^ 4 = 2 ^ 32 := by decide
+    rw [this]; exact hrnd
+  have hnts : ∀ rest, nonceTs (hexLcEven (ts % 2 ^ 64).toNat ++ 58 :: rest) = (ts, 58 :: rest) := by
+    intro rest
+    simp only [nonceTs, hexPrefix_hexLcEven 16 8 _ rest (by decide) htsU (by decide) (by decide), hts]
+  have hfresh : ¬ (False ∨ ts < 0 ∨ ts > epoch ∨ epoch - ts > 600) := by
+    simp only [false_or, not_or]; omega
+  cases hs : rule.secret with
+  | none =>
+    simp only [validateNonce, appendNonce, hnts, List.head?_cons, hs, ne_eq, not_true_eq_false]
+    rw [if_neg hfresh]
+  | some sec =>
+    have hr : ∀ rest, hexPrefix 8 (hexLcEven rnd ++ 58 :: rest) 0 = (rnd, 58 :: rest) :=
+      fun rest => hexPrefix_hexLcEven 8 4 rnd rest (by decide) hr256 (by decide) (by decide)
+    simp only [validateNonce, appendNonce, hnts, List.head?_cons, hs, List.drop_succ_cons,
+               List.drop_zero, List.append_assoc, List.singleton_append, hr, Nat.mod_eq_of_lt hrnd,
+               ne_eq, not_true_eq_false, ↓reduceIte]
+    rw [if_neg hfresh]
+
 /-! ### a starting state, and fixtures for the non-vacuity examples -/
 
 /-- server start: empty cache, any clock values -/
@@ -1047,6 +1189,9 @@ def digestReq (method user uri response : String) : Req :=
   { method := ofString method, target := ofString "/dig/x", path := ofString "/dig/x",
     auth := some (digestHdr user uri response), h2ext := false }
 def st0 : St := init 1000 1700000000
+def secretRule : Rule :=
+  { pfx := ofString "/sec", scheme := .digest, realm := ofString "R1", algorithm := 3,
+    secret := some (ofString "s3cr3t"), userhash := false, req := { validUser := true } }
 end Ex
 
 end LtVerif.Auth
